@@ -5,6 +5,7 @@ import (
 	"fmt"
 	"sort"
 	"strings"
+	"sync"
 
 	jd "github.com/josephburnett/jd/v2"
 	verifseam "github.com/josephburnett/jd/v2/verif/seam"
@@ -77,6 +78,8 @@ func mkOptions(names []string) []jd.Option {
 
 // ---------------------------------------------------------------- map order hook
 
+var hookMu sync.Mutex
+
 type orderState struct {
 	mo      MapOrder
 	ordinal uint64
@@ -85,6 +88,11 @@ type orderState struct {
 
 func (st *orderState) install() {
 	verifseam.Hook = func(site string, n int) (int, uint64) {
+		// jd has no goroutines; a changed tree might. The hook must survive
+		// being called from several at once (what it then decides depends on
+		// their scheduling, which is the tree's nondeterminism, not ours).
+		hookMu.Lock()
+		defer hookMu.Unlock()
 		st.ordinal++
 		if st.mo.Mode == "" || st.mo.Mode == "canonical" {
 			return verifseam.Canonical, 0
